@@ -140,3 +140,83 @@ Proof.
   induction evs2; simpl; intros. lia.
   eapply Z.le_trans. apply (step_lib_mono n a I). apply IHevs2. apply sv_inv_step; auto.
 Qed.
+
+Definition main_at (nd : node) (h : Z) : option block := main_get (nd_main nd) h.
+
+(** A block numbered at or below the LIB changes nothing (VerifyTimestamp's rule). *)
+Theorem block_le_lib_refused : forall nd blk,
+  k_no blk <= lib_no nd -> fst (deliver nd blk) = nd.
+Proof.
+  intros nd blk H. unfold deliver, lib_no in *.
+  destruct (find_block (nd_store nd) (k_id blk)); auto.
+  unfold verify_lib_rule. rewrite negb_involutive.
+  replace (k_no blk <=? b_no (ls_lib (st_ls (nd_st nd)))) with true; auto.
+  symmetry. apply Z.leb_le. exact H.
+Qed.
+
+Lemma nth_error_firstn_lt : forall (A : Type) (l : list A) n i,
+  (i < n)%nat -> nth_error (firstn n l) i = nth_error l i.
+Proof.
+  induction l; intros; destruct n, i; simpl; auto; try lia. apply IHl. lia.
+Qed.
+
+Lemma main_get_app : forall m x h b, main_get m h = Some b -> main_get (m ++ x) h = Some b.
+Proof.
+  unfold main_get. intros. destruct (h <? 0); try discriminate.
+  rewrite nth_error_app1; auto. apply nth_error_Some. congruence.
+Qed.
+
+Lemma main_get_firstn_app : forall m x r h b,
+  0 <= h <= r -> main_get m h = Some b -> main_get (firstn (Z.to_nat r + 1) m ++ x) h = Some b.
+Proof.
+  unfold main_get. intros m x r h b H N. destruct (h <? 0) eqn:E; auto.
+  assert (Hn : (Z.to_nat h <= Z.to_nat r)%nat) by (apply Z2Nat.inj_le; lia).
+  assert (L : (Z.to_nat h < length m)%nat) by (apply nth_error_Some; congruence).
+  rewrite nth_error_app1.
+  + rewrite nth_error_firstn_lt. exact N. lia.
+  + rewrite firstn_length. apply Nat.min_glb_lt; lia.
+Qed.
+
+(** A reorganisation keeps every main-chain block at or below the LIB; a reorganisation
+    whose fork point is below the LIB is vetoed and changes neither chain nor status. *)
+Theorem reorg_below_lib_refused : forall nd blk nd' o,
+  deliver nd blk = (nd', o) ->
+  (forall h, 0 <= h <= lib_no nd -> main_at nd' h = main_at nd h \/ (main_at nd h = None)) /\
+  (o = OVeto -> nd_main nd' = nd_main nd /\ nd_st nd' = nd_st nd /\ nd_saved nd' = nd_saved nd).
+Proof.
+  intros nd blk nd' o. unfold main_at, lib_no. deliver_cases nd blk; intros E; inversion E; subst; clear E;
+    cbn [nd_main nd_st nd_saved]; (split; [intros h Hh | intros Ho; try discriminate; auto]); auto.
+  - destruct (main_get (nd_main nd) h) eqn:M; auto. left. apply main_get_app; auto.
+  - destruct (main_get (nd_main nd) h) eqn:M; auto. left. apply main_get_firstn_app; auto.
+    unfold need_reorganization in Eveto. apply negb_false_iff, Z.leb_le in Eveto. lia.
+Qed.
+
+Lemma step_main_stable : forall nd e h b,
+  0 <= h <= lib_no nd -> main_at nd h = Some b -> main_at (step nd e) h = Some b.
+Proof.
+  intros nd e h b Hh M. destruct e; simpl.
+  - destruct (deliver nd b0) as [nd' o] eqn:D.
+    destruct (reorg_below_lib_refused _ _ _ _ D) as [P _]. simpl.
+    destruct (P h Hh) as [Q|Q]; congruence.
+  - exact M.
+Qed.
+
+(** [finalized_never_undone]: a main-chain block at or below a LIB the node has reported
+    stays at its height on the node's main chain forever (any further deliveries, forks,
+    reorganisation attempts and restarts). *)
+Theorem finalized_never_undone : forall size self evs1 evs2 h b,
+  0 <= h <= lib_no (run (init_node size self) evs1) ->
+  main_at (run (init_node size self) evs1) h = Some b ->
+  main_at (run (init_node size self) (evs1 ++ evs2)) h = Some b.
+Proof.
+  intros size self evs1 evs2 h b. unfold run. rewrite fold_left_app.
+  assert (I : sv_inv (fold_left step evs1 (init_node size self))).
+  { generalize (sv_inv_init size self). generalize (init_node size self).
+    induction evs1; simpl; intros; auto. apply IHevs1. apply sv_inv_step; auto. }
+  revert I. generalize (fold_left step evs1 (init_node size self)).
+  induction evs2; simpl; intros; auto.
+  apply IHevs2.
+  - apply sv_inv_step; auto.
+  - pose proof (step_lib_mono n a I). lia.
+  - apply step_main_stable; auto.
+Qed.
